@@ -190,6 +190,48 @@ def cmd_check(prop, tier):
                       readable=eng.sample_repr(case))
             core.write_json(path, rp)
             ok = verify_replay(path, prop, sig)
+        if not ok:
+            # the violation may depend on state that an EARLIER simulated
+            # run left behind in the same process (process-global state in
+            # the library is itself a way for enforcers to influence one
+            # another): replay the preceding cases of the same sub-run
+            # first, as few of them as reproduce the violation
+            rp = json.load(open(path))
+            rp.update(case=case, size_after_shrinking=n_before,
+                      readable=eng.sample_repr(case))
+            found = None
+            for k in (1, 2, 4, 8, 16, 32):
+                lo = max(0, i - k)
+                prelude = [eng.make_case(base, prop, j, mode)
+                           for j in range(lo, i)]
+                if not prelude:
+                    break
+                rp.update(prelude=prelude, prelude_indices=list(range(lo, i)))
+                core.write_json(path, rp)
+                if verify_replay(path, prop, sig):
+                    found = (lo, prelude)
+                    break
+                if lo == 0:
+                    break
+            if found:
+                ok = True
+                lo, prelude = found
+                for off, pc in list(enumerate(prelude))[-8:]:
+                    rp.update(prelude=[pc], prelude_indices=[lo + off])
+                    core.write_json(path, rp)
+                    if verify_replay(path, prop, sig):
+                        prelude, lo = [pc], lo + off
+                        break
+                rp.update(prelude=prelude,
+                          prelude_indices=list(range(lo, lo + len(prelude))),
+                          shrink_note='the violation needs state left in the '
+                          'process by the preceding simulated run(s) listed '
+                          'in prelude_indices; replay executes them first')
+                core.write_json(path, rp)
+            else:
+                rp.pop('prelude', None)
+                rp.pop('prelude_indices', None)
+                core.write_json(path, rp)
         reported.append((sig, path, ok, len(by_sig[sig])))
 
     # ---- determinism + fidelity (harness self-tests)
@@ -359,6 +401,13 @@ def cmd_replay(path):
     eng = engine(prop)
     core.boot()
     eng.warm_up()
+    for pc in rp.get('prelude') or []:
+        # earlier simulated runs of the same process (their own verdicts do
+        # not matter here, only what they leave behind)
+        try:
+            eng.execute(pc)
+        except Exception:      # noqa
+            pass
     res = eng.execute(rp['case'])
     v = res['violation']
     if v is None:
